@@ -252,8 +252,8 @@ pub fn meta(prop: &str) -> PropMeta {
         },
         "C12" => PropMeta {
             level: "fault_enumeration",
-            rule: "one unit = one seeded workload (write_shape / finalize-with-immediate-retry / drop; Direct or BufWriter stack); golden run, then for every operation k issued on each destination: one-shot error, persistent error, Ok(0), EINTR at k; disk-full at ~150 capacities per destination; every short-write chunk size from 1 byte upward with and without EINTR; 6 seeded mixed schedules. distinct = distinct (history, fault class, per-call result pattern) triples; runs whose fault never fired are not counted as distinct.",
-            explanation: "Surfacing is judged with the API-call brackets: the call whose device-event range contains the failed operation must return Err (exact also below a BufWriter). A one-shot fault in a finalize must leave golden bytes after the immediate retry. Masked schedules must leave golden bytes.",
+            rule: "one unit = one seeded workload (write_shape / finalize retried at once while it fails, up to 3 times / finalize whose failure is ignored and followed by further writes / drop; Direct or BufWriter stack); golden run, then for every operation k issued on each destination: one-shot error, persistent error, Ok(0), EINTR at k; two and three consecutive one-shot errors starting at k (the retry fails too); disk-full at ~150 capacities per destination; every short-write chunk size from 1 byte upward with and without EINTR; 6 seeded mixed schedules. distinct = distinct (history, fault class, per-call result pattern) triples; runs whose fault never fired are not counted as distinct.",
+            explanation: "Surfacing is judged with the API-call brackets: the call whose device-event range contains the failed operation must return Err (exact also below a BufWriter). Whenever every fault of a run landed inside finalize calls (first attempts, retries, or finalizes that are not retried) and none in a write or in the drop, the final files must equal the golden ones - the history always ends with the finalize run by Drop. Masked schedules (short writes, EINTR on writes) must leave golden bytes. Drop with a persistently failing destination must not panic.",
             exhaustive: false,
         },
         "C07" | "C17" => PropMeta {
